@@ -397,7 +397,28 @@ def np_full(ex, args, kw, st):
     shape, val = args[0], args[1]
     if not isinstance(shape, (tuple, list)):
         shape = (shape,)
+    dt = kw.get('dtype')
+    if isinstance(val, SArr):
+        # np.full broadcasts an array fill value (same rank assumed and checked)
+        if val.ndim != len(tuple(shape)):
+            raise Unsupported('np.full with a fill array of another rank')
+        for a, b in zip(val.shape, tuple(shape)):
+            st.check('np.full: fill array has the requested shape', num_term(a) == num_term(b))
+        vf = snap(val)
+        if isinstance(dt, tuple) and dt and dt[0] == 'dtype' and dt[1] != 'float':
+            cf = uf('cast_to_dtype', 1)
+            return ex.new_array(tuple(shape), lambda idx: cf(real(vf(idx))), 'real', 'full')
+        return ex.new_array(tuple(shape), lambda idx: vf(idx), val.kind, 'full')
     kind = 'bool' if is_bool(val) else ('int' if is_intlike(val) else 'real')
+    if isinstance(dt, tuple) and dt and dt[0] == 'dtype' and dt[1] not in ('float',) \
+            and not isinstance(val, bool):
+        # the fill value is cast to a dtype that is not known to be float: the stored value is
+        # some function of it (truncation for integer dtypes), not the value itself
+        if dt[1] == 'int' and is_intlike(val):
+            pass
+        else:
+            cast = uf('cast_to_dtype', 1)(real(val))
+            return ex.new_array(tuple(shape), lambda idx: cast, 'real', 'full')
     return ex.new_array(tuple(shape), lambda idx: val, kind, 'full')
 
 
